@@ -64,15 +64,19 @@ func (cache *lruCache) getLocked(publicKey *curve.CompressedEdwardsY) *ed25519.E
 }
 
 func (cache *lruCache) Get(publicKey *curve.CompressedEdwardsY) *ed25519.ExpandedPublicKey {
+	verifGate("get", publicKey)
 	cache.Lock()
 	defer cache.Unlock()
+	defer verifEvent(cache, "get", publicKey)
 
 	return cache.getLocked(publicKey)
 }
 
 func (cache *lruCache) Put(publicKey *curve.CompressedEdwardsY, expanded *ed25519.ExpandedPublicKey) {
+	verifGate("put", publicKey)
 	cache.Lock()
 	defer cache.Unlock()
+	defer verifEvent(cache, "put", publicKey)
 
 	// Do a lookup to see if the entry already exists.
 	if entry := cache.getLocked(publicKey); entry != nil {
